@@ -356,6 +356,7 @@ pub fn run(mut run: Run) -> i32 {
         };
         let wind0 = match g {
             Geometry::Polygon(p) => p.exterior().winding_order(),
+            Geometry::LineString(l) if l.is_closed() && l.0.len() >= 4 => l.winding_order(),
             _ => None,
         };
         acc.class(format!("single {}", tname(g)));
@@ -434,8 +435,16 @@ pub fn run(mut run: Run) -> i32 {
                     }
                 }
             }
-            if let (Some(w0), Geometry::Polygon(p)) = (wind0, &t) {
-                let w1 = p.exterior().winding_order();
+            let ring1 = match &t {
+                Geometry::Polygon(p) => Some(p.exterior().clone()),
+                Geometry::LineString(l) if l.is_closed() && l.0.len() >= 4 => Some(l.clone()),
+                _ => None,
+            };
+            if wind0.is_none() && ring1.as_ref().map_or(false, |r| r.winding_order().is_some()) {
+                acc.viol("winding order is None before and Some after an exact similarity map".into(), idx, || wit("winding None -> Some"));
+            }
+            if let (Some(w0), Some(p)) = (wind0, ring1.as_ref()) {
+                let w1 = p.winding_order();
                 let flipped = w1 != Some(w0);
                 if flipped != *refl {
                     acc.viol("winding order does not flip exactly under reflections".into(), idx, || wit(&format!("{:?} -> {:?}", w0, w1)));
